@@ -2493,7 +2493,7 @@ def demoOpq : V2.Opq :=
     nkeys_IsValidPublicUserKey := fun _ => false, nkeys_IsValidPublicCurveKey := fun _ => false,
     nkeys_IsValidPublicServerKey := fun _ => false, time_Parse := fun _ _ => false, net_ParseCIDR := fun _ => false,
     time_LoadLocation := fun _ => false, nkeys_IsValidPublicOperatorKey := fun _ => false,
-    UserClaims_HasEmptyPermissions := fun _ => some true,
+    UserClaims_HasEmptyPermissions := fun _ => some true, time_NowAddUnix := fun d => d,
     json_Unmarshalanon_GenericClaims_GenericFields := fun _ g => (g, true),
     nkeys_FromPublicKey := fun _ => some 7, nkeys_Prefix := fun _ => 0,
     nkeys_Decode := fun _ _ => some (List.replicate 32 0),
@@ -3041,6 +3041,50 @@ theorem gen_newUserClaims (subject : Str) :
   by_cases h : subject = [] <;> simp [h]
   exact ⟨rfl, rfl, rfl⟩
 
+/-- the claims `IssueUserJWT` hands to `Encode`: subject = the user key, issuer account = the account id, name = the
+given name or else the user key, the given tags, *no* permission or limit of its own (scoped), and an expiry only when
+a duration was given (`time.Now().Add(d).Unix()`, a parameter) -/
+def issuedClaim (opq : V2.Opq) (acct pk name : Str) (d : Int) (tags : List Str) : V2.T_UserClaims :=
+  { f_ClaimsData := { (default : V2.T_ClaimsData) with
+      f_Subject := pk, f_Name := if name ≠ [] then name else pk,
+      f_Expires := if d ≠ 0 then opq.time_NowAddUnix d else 0 },
+    f_User := { (default : V2.T_User) with
+      f_UserPermissionLimits := default, f_IssuerAccount := acct,
+      f_GenericFields := { (default : V2.T_GenericFields) with f_Tags := tags } } }
+
+/-- **`IssueUserJWT`, as translated**: an error and no token unless the account id is an account key and the user
+key a user key; otherwise exactly `Encode` of `issuedClaim` under the given signing key (an `Encode` error becomes an
+error with no token). The empty user key is the one place the source would dereference a nil claim; no real validator
+accepts it. -/
+theorem gen_issueUserJWT (opq : V2.Opq) (kp : Nat) (acct pk name : Str) (d : Int) (tags : List Str) (now : Int) :
+    V2.IssueUserJWT kp acct pk name d tags now opq =
+      if !opq.nkeys_IsValidPublicAccountKey acct then some ([], true)
+      else if !opq.nkeys_IsValidPublicUserKey pk then some ([], true)
+      else if pk = [] then none
+      else (V2.UserClaims_Encode (issuedClaim opq acct pk name d tags) kp opq).map
+        fun r => if r.2.2 then ([], true) else (r.2.1, false) := by
+  unfold V2.IssueUserJWT
+  cases ha : opq.nkeys_IsValidPublicAccountKey acct
+  · simp
+  cases hu : opq.nkeys_IsValidPublicUserKey pk
+  · simp
+  by_cases hp : pk = []
+  · subst hp; simp [gen_newUserClaims]
+  simp only [gen_newUserClaims, hp, if_false, (gen_setScoped _).1, Bool.not_true, Bool.false_eq_true,
+    Option.pure_def, Option.bind_eq_bind, Option.bind_some]
+  have hc : ∀ c c' : V2.T_UserClaims, c = c' →
+      ((V2.UserClaims_Encode c kp opq).bind fun r => if r.2.2 = true then some (([] : Str), true) else some (r.2.1, false)) =
+      (V2.UserClaims_Encode c' kp opq).map fun r => if r.2.2 then ([], true) else (r.2.1, false) := by
+    intro c c' hc; subst hc
+    cases V2.UserClaims_Encode c kp opq with
+    | none => rfl
+    | some r => rcases r with ⟨a, t, e⟩; cases e <;> rfl
+  by_cases hd : d = 0 <;> by_cases hn : name = [] <;>
+    simp only [hd, hn, bne_self_eq_false, Bool.false_eq_true, if_false, if_true, Option.bind_some, ne_eq,
+      not_true_eq_false, not_false_eq_true, bne_iff_ne] <;>
+    (try simp only [hd, hn, if_true, if_false, not_false_eq_true, Option.bind_some]) <;>
+    (apply hc; simp [issuedClaim, hd, hn]; first | done | exact ⟨rfl, rfl, rfl⟩ | exact ⟨rfl, rfl⟩)
+
 /-! ## C08 / C14: the remaining `SigningKeys` methods -/
 
 /-- `AddScopedSigner(s)`: stores the scope under the key the scope itself reports; a nil scope or a nil map panics -/
@@ -3362,5 +3406,119 @@ theorem gen_decodeGeneric_accepts (opq : V2.Opq) (tok : Str) (g : V2.T_GenericCl
         · rw [← h]
   · have hl : ¬ ((l.length : Int) + 1 + 1 + 1 + 1 = 3) := by omega
     simp [hsp, len, hl] at h
+
+/-! ## C19: the per-kind part of the version-1 `Encode`, as translated
+
+As for version 2: the subject-role test, (account) both sorts, (operator) the account-server URL test, the kind stamp
+in `ClaimsData.Type`, then `ClaimsData.Encode` — which stays opaque, so the stamps *it* makes on the claims are outside
+these statements. -/
+
+theorem v1_userEncode (opq : Gen.Fn.V1.Opq) (a : Gen.Fn.V1.T_UserClaims) (kp : Nat) :
+    Gen.Fn.V1.UserClaims_Encode a kp opq =
+      if opq.nkeys_IsValidPublicUserKey a.f_ClaimsData.f_Subject then
+        let a' : Gen.Fn.V1.T_UserClaims := { a with f_ClaimsData := { a.f_ClaimsData with f_Type := "user".toList } }
+        (opq.ClaimsData_Encode a'.f_ClaimsData kp (some (.UserClaims a'))).map fun r => (a', r.1, r.2)
+      else some (a, [], true) := by
+  unfold Gen.Fn.V1.UserClaims_Encode
+  cases h : opq.nkeys_IsValidPublicUserKey a.f_ClaimsData.f_Subject <;> simp [h]
+  cases opq.ClaimsData_Encode _ kp _ <;> rfl
+
+theorem v1_activationEncode (opq : Gen.Fn.V1.Opq) (a : Gen.Fn.V1.T_ActivationClaims) (kp : Nat) :
+    Gen.Fn.V1.ActivationClaims_Encode a kp opq =
+      if opq.nkeys_IsValidPublicAccountKey a.f_ClaimsData.f_Subject then
+        let a' : Gen.Fn.V1.T_ActivationClaims := { a with f_ClaimsData := { a.f_ClaimsData with f_Type := "activation".toList } }
+        (opq.ClaimsData_Encode a'.f_ClaimsData kp (some (.ActivationClaims a'))).map fun r => (a', r.1, r.2)
+      else some (a, [], true) := by
+  unfold Gen.Fn.V1.ActivationClaims_Encode
+  cases h : opq.nkeys_IsValidPublicAccountKey a.f_ClaimsData.f_Subject <;> simp [h]
+  cases opq.ClaimsData_Encode _ kp _ <;> rfl
+
+theorem v1_clusterEncode (opq : Gen.Fn.V1.Opq) (a : Gen.Fn.V1.T_ClusterClaims) (kp : Nat) :
+    Gen.Fn.V1.ClusterClaims_Encode a kp opq =
+      if opq.nkeys_IsValidPublicClusterKey a.f_ClaimsData.f_Subject then
+        let a' : Gen.Fn.V1.T_ClusterClaims := { a with f_ClaimsData := { a.f_ClaimsData with f_Type := "cluster".toList } }
+        (opq.ClaimsData_Encode a'.f_ClaimsData kp (some (.ClusterClaims a'))).map fun r => (a', r.1, r.2)
+      else some (a, [], true) := by
+  unfold Gen.Fn.V1.ClusterClaims_Encode
+  cases h : opq.nkeys_IsValidPublicClusterKey a.f_ClaimsData.f_Subject <;> simp [h]
+  cases opq.ClaimsData_Encode _ kp _ <;> rfl
+
+theorem v1_serverEncode (opq : Gen.Fn.V1.Opq) (a : Gen.Fn.V1.T_ServerClaims) (kp : Nat) :
+    Gen.Fn.V1.ServerClaims_Encode a kp opq =
+      if opq.nkeys_IsValidPublicServerKey a.f_ClaimsData.f_Subject then
+        let a' : Gen.Fn.V1.T_ServerClaims := { a with f_ClaimsData := { a.f_ClaimsData with f_Type := "server".toList } }
+        (opq.ClaimsData_Encode a'.f_ClaimsData kp (some (.ServerClaims a'))).map fun r => (a', r.1, r.2)
+      else some (a, [], true) := by
+  unfold Gen.Fn.V1.ServerClaims_Encode
+  cases h : opq.nkeys_IsValidPublicServerKey a.f_ClaimsData.f_Subject <;> simp [h]
+  cases opq.ClaimsData_Encode _ kp _ <;> rfl
+
+theorem v1_accountEncode (opq : Gen.Fn.V1.Opq) (a : Gen.Fn.V1.T_AccountClaims) (kp : Nat) :
+    Gen.Fn.V1.AccountClaims_Encode a kp opq =
+      if opq.nkeys_IsValidPublicAccountKey a.f_ClaimsData.f_Subject then
+        let a' : Gen.Fn.V1.T_AccountClaims := { a with
+          f_Account := { a.f_Account with
+            f_Exports := opq.sort_SortExports a.f_Account.f_Exports,
+            f_Imports := opq.sort_SortImports a.f_Account.f_Imports },
+          f_ClaimsData := { a.f_ClaimsData with f_Type := "account".toList } }
+        (opq.ClaimsData_Encode a'.f_ClaimsData kp (some (.AccountClaims a'))).map fun r => (a', r.1, r.2)
+      else some (a, [], true) := by
+  unfold Gen.Fn.V1.AccountClaims_Encode
+  cases h : opq.nkeys_IsValidPublicAccountKey a.f_ClaimsData.f_Subject <;> simp [h]
+  cases opq.ClaimsData_Encode _ kp _ <;> rfl
+
+/-- the version-1 account-server URL rule: an empty URL passes; otherwise it must parse and carry a scheme -/
+theorem v1_validateAccountServerURL (opq : Gen.Fn.V1.Opq) (o : Gen.Fn.V1.T_Operator) :
+    Gen.Fn.V1.Operator_validateAccountServerURL o opq = some
+      (o.f_AccountServerURL ≠ [] &&
+        (match opq.url_Parse o.f_AccountServerURL with
+         | none => true
+         | some u => u.f_Scheme == [])) := by
+  unfold Gen.Fn.V1.Operator_validateAccountServerURL
+  by_cases h : o.f_AccountServerURL = []
+  · simp [h]
+  · cases hp : opq.url_Parse o.f_AccountServerURL with
+    | none => simp [h, hp]
+    | some u => by_cases hs : u.f_Scheme = [] <;> simp [h, hp, hs]
+
+theorem v1_operatorEncode (opq : Gen.Fn.V1.Opq) (oc : Gen.Fn.V1.T_OperatorClaims) (kp : Nat) (b : Bool)
+    (hb : Gen.Fn.V1.Operator_validateAccountServerURL oc.f_Operator opq = some b) :
+    Gen.Fn.V1.OperatorClaims_Encode oc kp opq =
+      if !opq.nkeys_IsValidPublicOperatorKey oc.f_ClaimsData.f_Subject then some (oc, [], true)
+      else if b then some (oc, [], true)
+      else
+        let oc' : Gen.Fn.V1.T_OperatorClaims := { oc with f_ClaimsData := { oc.f_ClaimsData with f_Type := "operator".toList } }
+        (opq.ClaimsData_Encode oc'.f_ClaimsData kp (some (.OperatorClaims oc'))).map fun r => (oc', r.1, r.2) := by
+  unfold Gen.Fn.V1.OperatorClaims_Encode
+  simp only [hb]
+  cases h : opq.nkeys_IsValidPublicOperatorKey oc.f_ClaimsData.f_Subject <;> cases b <;> simp [h]
+  cases opq.ClaimsData_Encode _ kp _ <;> rfl
+
+theorem v1_genericEncode (opq : Gen.Fn.V1.Opq) (g : Gen.Fn.V1.T_GenericClaims) (kp : Nat) :
+    Gen.Fn.V1.GenericClaims_Encode g kp opq = opq.ClaimsData_Encode g.f_ClaimsData kp (some (.GenericClaims g)) := by
+  unfold Gen.Fn.V1.GenericClaims_Encode
+  cases opq.ClaimsData_Encode g.f_ClaimsData kp _ <;> rfl
+
+/-- **a version-1 `Encode` never issues a token for a subject of the wrong role** (whatever `ClaimsData.Encode` does) -/
+theorem v1_encode_refuses_unfit_subject (opq : Gen.Fn.V1.Opq) (kp : Nat) :
+    (∀ u : Gen.Fn.V1.T_UserClaims, opq.nkeys_IsValidPublicUserKey u.f_ClaimsData.f_Subject = false →
+        Gen.Fn.V1.UserClaims_Encode u kp opq = some (u, [], true)) ∧
+    (∀ a : Gen.Fn.V1.T_AccountClaims, opq.nkeys_IsValidPublicAccountKey a.f_ClaimsData.f_Subject = false →
+        Gen.Fn.V1.AccountClaims_Encode a kp opq = some (a, [], true)) ∧
+    (∀ a : Gen.Fn.V1.T_ActivationClaims, opq.nkeys_IsValidPublicAccountKey a.f_ClaimsData.f_Subject = false →
+        Gen.Fn.V1.ActivationClaims_Encode a kp opq = some (a, [], true)) ∧
+    (∀ o : Gen.Fn.V1.T_OperatorClaims, opq.nkeys_IsValidPublicOperatorKey o.f_ClaimsData.f_Subject = false →
+        Gen.Fn.V1.OperatorClaims_Encode o kp opq = some (o, [], true)) ∧
+    (∀ c : Gen.Fn.V1.T_ClusterClaims, opq.nkeys_IsValidPublicClusterKey c.f_ClaimsData.f_Subject = false →
+        Gen.Fn.V1.ClusterClaims_Encode c kp opq = some (c, [], true)) ∧
+    (∀ c : Gen.Fn.V1.T_ServerClaims, opq.nkeys_IsValidPublicServerKey c.f_ClaimsData.f_Subject = false →
+        Gen.Fn.V1.ServerClaims_Encode c kp opq = some (c, [], true)) := by
+  refine ⟨?_, ?_, ?_, ?_, ?_, ?_⟩
+  · intro u h; rw [v1_userEncode]; simp [h]
+  · intro a h; rw [v1_accountEncode]; simp [h]
+  · intro a h; rw [v1_activationEncode]; simp [h]
+  · intro o h; unfold Gen.Fn.V1.OperatorClaims_Encode; simp [h]
+  · intro c h; rw [v1_clusterEncode]; simp [h]
+  · intro c h; rw [v1_serverEncode]; simp [h]
 
 end Jwt.FnTie
